@@ -51,6 +51,9 @@ HIST_RULES = {
 }
 
 
+STORE_PROPS = ("C01", "C02", "C03", "C06")
+
+
 class HistSpec(Spec):
     engine = "E-HIST"
     level = "exploration"
@@ -73,6 +76,10 @@ class HistSpec(Spec):
         from .engines import hist
 
         world.install_seams()
+        if prop in STORE_PROPS and seed % 4 == 0:
+            from .engines import store
+
+            return store.StoreRun(prop, store.make_config(prop, seed, tier), tag=tag).run()
         cfg = hist.make_config(prop, seed, tier)
         return hist.HistRun(prop, cfg, tag=tag).run()
 
@@ -81,6 +88,10 @@ class HistSpec(Spec):
         from .engines import hist
 
         world.install_seams()
+        if doc.get("engine") == "store":
+            from .engines import store
+
+            return store.StoreRun(doc["prop"], doc["cfg"], ops=doc["ops"], tag=tag).run()
         return hist.HistRun(doc["prop"], doc["cfg"], ops=doc["ops"], tag=tag).run()
 
     # -- aggregation ---------------------------------------------------------
@@ -89,7 +100,7 @@ class HistSpec(Spec):
         p = self.prop
         ok = False
         if p == "C01":
-            ok = len(nt.get("written", [])) >= 2 and nt.get("succ", 0) >= 2 and nt.get("fail", 0) >= 1
+            ok = (len(nt.get("written", [])) >= 2 or res.get("engine") == "store") and nt.get("succ", 0) >= 2 and nt.get("fail", 0) >= 1
         elif p == "C02":
             ok = len(nt.get("paths3", [])) >= 1
         elif p == "C03":
@@ -113,6 +124,8 @@ class HistSpec(Spec):
         return [ops_digest(res.get("ops", []))] if ok else []
 
     def sample(self, res):
+        if res.get("engine") == "store":
+            return None
         ops = res.get("ops", [])
         short = []
         for o in ops[:12]:
@@ -128,6 +141,12 @@ class HistSpec(Spec):
         w = res.get("world") or {}
         agg.add_stats({"fault.restart_total": 0})
         c = res.get("cfg", {})
+        if res.get("engine") == "store":
+            agg.add_stats({"store_api_runs": 1, "store_api.backend." + str(c.get("backend")): 1})
+            if len(agg.samples) < 4 and res.get("samples") and not agg.extra.get("store_sample"):
+                agg.extra["store_sample"] = True
+                agg.samples.append({"store_api": res["samples"][0]})
+            return
         agg.add_stats({"config.frontend." + str(c.get("frontend")): 1, "config.prefix." + str(c.get("prefix")): 1})
 
     def essential(self, agg):
@@ -140,7 +159,7 @@ class HistSpec(Spec):
     # -- replay / minimisation --------------------------------------------------
     def replay_doc(self, prop, v, res):
         return {
-            "engine": "hist",
+            "engine": res.get("engine", "hist"),
             "prop": prop,
             "seed": v.get("seed"),
             "cfg": res["cfg"],
@@ -157,7 +176,7 @@ class HistSpec(Spec):
         state = {"last": None}
 
         def test_many(cands, cfgs=None):
-            docs = [{"prop": prop, "cfg": (cfgs[i] if cfgs else cfg), "ops": c} for i, c in enumerate(cands)]
+            docs = [{"prop": prop, "engine": res.get("engine", "hist"), "cfg": (cfgs[i] if cfgs else cfg), "ops": c} for i, c in enumerate(cands)]
             outs = {}
             farm.map(self.replay, [(d, "min-%s-%d" % (prop, i)) for i, d in enumerate(docs)], on_result=lambda i, a, o: outs.__setitem__(i, o))
             ret = []
@@ -177,7 +196,7 @@ class HistSpec(Spec):
         # the run stops at the first violation, so the tail is already gone
         ops = ddmin(ops, test_many)
         # simplify the configuration
-        for key, val in (("preseed", []), ("paranoid", False), ("index_threshold", None), ("strict", True), ("listing", False), ("prefix", "/"), ("names", "simple")):
+        for key, val in () if res.get("engine") == "store" else (("preseed", []), ("paranoid", False), ("index_threshold", None), ("strict", True), ("listing", False), ("prefix", "/"), ("names", "simple")):
             if cfg.get(key) == val:
                 continue
             c2 = dict(cfg)
@@ -195,6 +214,6 @@ class HistSpec(Spec):
         first = r.get("digest")
         if not test_many([ops])[0] or state["last"][1].get("digest") != first:
             return None  # not reproducible exactly: caller falls back, flagged unminimised
-        doc = self.replay_doc(prop, dict(v, oracle=x["oracle"], sig=x["sig"], detail=x["detail"]), {"cfg": cfg, "ops": ops, "digest": first})
+        doc = self.replay_doc(prop, dict(v, oracle=x["oracle"], sig=x["sig"], detail=x["detail"]), {"cfg": cfg, "ops": ops, "digest": first, "engine": res.get("engine", "hist")})
         doc["original_ops"] = len(res["ops"])
         return doc
